@@ -107,7 +107,7 @@ impl Prop for C17 {
         "C17"
     }
     fn rule(&self) -> String {
-        "units: all 78 `units::*` statics and the 8 base units x power in -3..3 (no 0) x all 21 prefixes as one-unit compounds; all 2-unit compounds over all units (fixed powers/prefixes) and all 3-unit compounds over a 12-unit core: CBOR encode/decode must return an equal compound whose units are the same statics (id and vtable); ids pairwise distinct and equal to the documented ids pinned in the harness (wire-format stability across builds); decoding {\"Derived\": id} yields the static that encodes to it. Rationals: |p|<=200/q<=60 grid plus a big ladder through CBOR and JSON. Constants: every shipped constant raw Value -> subject `Constant` -> bytes -> `Constant`, fields compared with the raw value decoded independently. Non-trivial = everything but the id-table cases; distinct = distinct case keys".into()
+        "units: all 78 `units::*` statics and the 8 base units x power in -3..3 (no 0) x all 21 prefixes as one-unit compounds; all 2-unit compounds over all units (fixed powers/prefixes) and all 3-unit compounds over a 12-unit core: CBOR encode/decode must return an equal compound whose units are the same statics (id and vtable); ids pairwise distinct and equal to the documented ids pinned in the harness (wire-format stability across builds); decoding {\"Derived\": id} yields the static that encodes to it. Rationals: |p|<=200/q<=60 grid plus a big ladder through CBOR and JSON. Constants: every shipped constant raw Value -> subject `Constant` -> bytes -> `Constant`, fields compared with the raw value decoded independently; every constant with a typeable spelling also through the tool's own loader (looked up by its own words on the in-memory database: stored value, unit, description, source); long decimals: 10^k, 10^k+-1, 2^k, 3^k, k! for 14 lengths from 8 to 200 digits over 9 denominators (integer, short and long terminating tails, repeating), both signs, and long integer parts with a tiny fraction, through CBOR and JSON. Non-trivial = everything but the id-table cases; distinct = distinct case keys".into()
     }
     fn assumptions(&self) -> Vec<String> {
         vec!["serde_cbor / serde_json are faithful carriers".into(), "the documented ids are those of tools/gen/data.toml at the pinned commit".into()]
@@ -164,11 +164,52 @@ impl Prop for C17 {
                 }
             }
         }
+        // long decimals: numerators 10^k, 10^k +- 1, 2^k, 3^k, k! around the lengths where a textual or
+        // fixed-width encoding would cut (8/9, 19/20, 38..42, 60, 100, 140, 200 digits) over
+        // denominators that make the value an integer, a terminating decimal with a short or a long
+        // tail, or a repeating one
+        {
+            use num::{BigInt, One};
+            let p = |b: u32, e: u32| num::pow(BigInt::from(b), e as usize);
+            let mut nums: Vec<BigInt> = Vec::new();
+            for k in [8u32, 9, 19, 20, 38, 39, 40, 41, 42, 45, 60, 100, 140, 200] {
+                nums.push(p(10, k));
+                nums.push(p(10, k) + BigInt::one());
+                nums.push(p(10, k) - BigInt::one());
+                nums.push(p(2, k));
+                nums.push(p(3, k));
+                nums.push((1..=k.min(60)).fold(BigInt::one(), |a, i| a * BigInt::from(i)));
+            }
+            let dens: Vec<BigInt> = vec![BigInt::one(), BigInt::from(2), BigInt::from(1000), p(2, 39), p(5, 20), p(10, 40), p(10, 41), BigInt::from(7), p(2, 64) + BigInt::one()];
+            for n in &nums {
+                for d in &dens {
+                    sink(Case::new("rational-big", format!("{n}/{d}")));
+                    sink(Case::new("rational-big", format!("-{n}/{d}")));
+                }
+            }
+            // a long integer part plus a tiny fraction
+            for (a, f) in [("12345678901", p(2, 39)), ("100000000", p(2, 39)), ("99999999", p(2, 39)), ("123456789012345678901234567890", p(5, 25)), ("1", p(10, 45))] {
+                let n = a.parse::<BigInt>().unwrap() * &f + BigInt::one();
+                sink(Case::new("rational-big", format!("{n}/{f}")));
+            }
+        }
         for (i, _) in refdb::constants().iter().enumerate() {
             sink(Case::new("constant", format!("{i}")));
         }
+        // "all shipped data files decode without loss" also through the tool's own loader: every
+        // constant with a typeable spelling, looked up by its own words, must come back with the
+        // stored value, unit, description and source (C16's oracle, one phrase per constant)
+        let mut seen = std::collections::HashSet::new();
+        for c in refdb::constants() {
+            if !c.tokens.is_empty() && c.tokens.len() <= 6 && crate::props::c16::typeable_phrase(&c.tokens) && seen.insert(c.tokens.join(" ")) {
+                sink(Case::new("loaded", c.tokens.join(" ")));
+            }
+        }
     }
-    fn check(&self, _env: &mut Env, case: &Case) -> Verdict {
+    fn check(&self, env: &mut Env, case: &Case) -> Verdict {
+        if case.fam == "loaded" {
+            return crate::props::c16::C16.check(env, &Case::new("own-order", case.key.clone()));
+        }
         let units = all_units();
         match case.fam {
             "id-table" => {
@@ -257,7 +298,7 @@ impl Prop for C17 {
                         }
                     }
                 }
-                _env.bulk_evals += n;
+                env.bulk_evals += n;
                 fw::pass(n > 0, n)
             }
             "pair" | "triple" => {
